@@ -401,7 +401,9 @@ def explore(tier, seed, repo, budget_s, stats, found, ref, probes, pool, t_end, 
         t2 = time.time()
         jobs = [(sp['hashseed'], gen.attach(sp, ref, probes)) for sp in specs]
         t3 = time.time()
-        pool.run_jobs(jobs, on_result=on, deadline=t_end)
+        # the first chunk of the random stream runs whatever the clock says (on a loaded machine start-up and references can eat
+        # the phase; a check without a single multi-threaded run would be no check)
+        pool.run_jobs(jobs, on_result=on, deadline=max(t_end, t3 + 12.0) if first_chunk[0] else t_end)
         if dbg:
             print('[C20] chunk of %d specs: refs %.1fs, attach %.1fs, run %.1fs (deadline in %+.1fs)' % (
                 len(specs), t2 - t1, t3 - t2, time.time() - t3, t_end - time.time()), flush=True)
@@ -421,12 +423,9 @@ def explore(tier, seed, repo, budget_s, stats, found, ref, probes, pool, t_end, 
         if harness:
             raise HarnessError('%s seed %s: %s' % (harness[0][0]['sub'], harness[0][0]['seed'], harness[0][1]))
         return
-    # phase A2: systematic abort points (a fifth of the phase's time at most)
-    abort_points(tier, seed, stats, found, ref, probes, pool, min(t_end, time.time() + max(5.0, (t_end - time.time()) * 0.16)))
-    if found.full():
-        return
     specs = []
     i1 = i2 = 0
+    first_chunk = [True]
     while i1 < n_s1 or i2 < n_s2:
         for _ in range(2):
             if i1 < n_s1:
@@ -441,6 +440,12 @@ def explore(tier, seed, repo, budget_s, stats, found, ref, probes, pool, t_end, 
             specs = []
             if harness or found.full() or time.time() > t_end:
                 break
+            if first_chunk[0]:
+                first_chunk[0] = False
+                # phase A2: systematic abort points (a sixth of what is left of the phase, 5 s at least)
+                abort_points(tier, seed, stats, found, ref, probes, pool, time.time() + max(5.0, (t_end - time.time()) * 0.2))
+                if found.full():
+                    break
     if specs and not harness and not found.full():
         flush(specs)
     if harness:
